@@ -342,7 +342,10 @@ func mutateValueP(r *fw.Rand, v interface{}, pool gen.Pool) interface{} {
 }
 
 func openMemEngine() (lungo.IClient, *lungo.Engine, error) {
-	return lungo.Open(nil, lungo.Options{Store: lungo.NewMemoryStore(), ExpireInterval: 1 << 40})
+	// a tiny oplog window keeps long-running workers from paying for an ever
+	// growing change log (checks about the oplog itself open their own engine)
+	return lungo.Open(nil, lungo.Options{Store: lungo.NewMemoryStore(), ExpireInterval: 1 << 40,
+		MinOplogSize: 2, MaxOplogSize: 8, MinOplogAge: 1, MaxOplogAge: 3600e9})
 }
 
 func c12Driver(c *fw.Ctx, pool []interface{}) {
